@@ -74,3 +74,5 @@ def run(chk):
     core = G.core_plain(['v0', 'v1']) + c02.family() + scope
     rnd = [G.random_formula(chk.rng, 3, ['v0', 'v1'], wild=('w',), doms=('d',)) for _ in range(100 if thorough else 15)]
     UC.run_family(chk, 'C03', [(['C2', 'M2'], core + rnd)], entries=('ext_dirty', 'ext'), check_unit=True)
+    core3i = [f for f in G.core_plain(['v0', 'v2']) if S.depth(f) <= 3 and S.quant_depth(f) <= 1] + [('iff', ('prop', 'v0'), ('prop', 'v1')), ('true',), ('bind', 'x', 'd', ('EX', ('or', ('var', 'x'), ('wild', 'w'))))]
+    UC.run_family(chk, 'C03', [(['I3'], core3i if thorough else core3i[::2])], entries=('ext_dirty', 'ext'), check_unit=True)
